@@ -60,7 +60,10 @@ def build_report(rep, k):
         path = {"top": base, "nested": "pkg/" + base, "deep": "pkg/sub/" + base}[f["shape"]]
         ms = [Measurement(inst(f["nameC"], k + i) if f["nameC"] != "plain" else f"fn{i}", Location(3 + 40 * i, 1 + i), Location(12 + 40 * i, 2), (10, 35, 61)[i % 3]) for i in range(f["nmeas"])]
         checksum = "c0ffee" * 5 + "00" if rep.get("sums") == "same" else f"{n:032x}"
-        cb.add_file(SourceFileEntry(path, checksum, "Python" if n % 2 == 0 else "C", sum(m.value for m in ms), ms))
+        # the stored line total is a value of its own: equal to the sum of the lengths, 0, or something else
+        total = sum(m.value for m in ms)
+        loc = (total, 0, total + 7)[(k + n) % 3]
+        cb.add_file(SourceFileEntry(path, checksum, "Python" if n % 2 == 0 else "C", loc, ms))
     cb.aggregate()
     repo = None
     if rep["repo"]:
